@@ -99,6 +99,11 @@ def evalOp (st : DState) (m : Mode) (op : String) (a : List Tok) : Option (DStat
   | "accu", [.int w, .int s, .int step] =>
     let (s', it) := accuNext w.toNat s step; pure' (ints [s', it])
   -- dsm
+  -- constructors: the start states the run-level theorems are about (`PLL::default`, `RPLL::new`, `Dsm::default`)
+  | "ctor_pll", [] => let s := PLL.default; pure' (ints [s.x, s.y0, s.f0, s.f, s.y])
+  | "ctor_rpll", [.int dt2] => let s := RPLL.new dt2; pure' (ints [s.dt2, s.x, s.ff, s.f, s.y])
+  -- `Dsm.default K` of Lemmas/Dsm.lean is literally this pair (that file imports Mathlib and cannot be linked here)
+  | "ctor_dsm", [.int k] => pure' (sp [showList (List.replicate k.toNat (0 : Int)), showList (List.replicate k.toNat (0 : Int))])
   | "dsm", [.list a, .list c, .int x] =>
     pure' (rshow (fun (s, y) => sp [showList s.a, showList s.c, toString y]) (Dsm.update m ⟨a, c⟩ x))
   -- pll
